@@ -39,16 +39,27 @@ func newTimedQueue(ttl time.Duration, onPop func(peer.ID)) *timedQueue {
 // releaseExpired will release all expired items
 func (q *timedQueue) releaseExpired() {
 	q.Lock()
-	defer q.Unlock()
-	q.releaseUnsafe()
+	expired := q.releaseUnsafe()
+	q.Unlock()
+
+	// onPop is called after the queue lock is released: the callback takes locks of its own
+	// (pool.afterCooldown locks the pool), and the pool pushes to the queue while holding its
+	// lock. Calling back under the queue lock would acquire the two locks in opposite orders.
+	for _, peerID := range expired {
+		q.onPop(peerID)
+	}
 }
 
-func (q *timedQueue) releaseUnsafe() {
+// releaseUnsafe removes all expired items from the queue and returns them.
+func (q *timedQueue) releaseUnsafe() []peer.ID {
 	if len(q.items) == 0 {
-		return
+		return nil
 	}
 
-	var i int
+	var (
+		i       int
+		expired []peer.ID
+	)
 	for _, next := range q.items {
 		timeIn := q.clock.Since(next.createdAt)
 		if timeIn < q.ttl {
@@ -59,7 +70,7 @@ func (q *timedQueue) releaseUnsafe() {
 		}
 
 		// item is expired
-		q.onPop(next.ID)
+		expired = append(expired, next.ID)
 		i++
 	}
 
@@ -67,6 +78,7 @@ func (q *timedQueue) releaseUnsafe() {
 		copy(q.items, q.items[i:])
 		q.items = q.items[:len(q.items)-i]
 	}
+	return expired
 }
 
 func (q *timedQueue) push(peerID peer.ID) {
